@@ -456,7 +456,7 @@ func c04Run(c c04Case, st *vlib.Stats) string {
 		s := s
 		if s.Fails {
 			// invalid on purpose: must be refused, is not acknowledged, must leave no trace
-			if k, _ := m.Apply(s); k == model.OK {
+			if k, merr := m.Apply(s); k == model.OK && merr == nil {
 				return fmt.Sprintf("harness: the statement meant to fail is valid in the model (statement %d)", i)
 			}
 			if err := eng.ExecStmt(s); err == nil {
